@@ -126,8 +126,43 @@ def collection_history(s, cidx):
             s.custom_violation('collection-not-completed-after-roDelete', {}, wit)
 
 
+def cli_history(s, i, tmpdir):
+    rng = s.rng('cli', i)
+    pool = gen.text_pool('plain')
+    ids = gen.Ids('W%d.' % i)
+    ro_txt = gen.rand_ro(rng, n_stories=rng.randint(0, 4), pool=pool, message_id=1)
+    state = Abs(ro_txt)
+    docs = [ro_txt]
+    for k in range(rng.randint(0, 5)):
+        docs.append(gen.rand_message(rng, state, K.weighted_kinds(rng, K.kind_weights(1, 1, 0.3, 0)), 10 + k, ids, pool=pool))
+    ended = rng.random() < 0.8
+    if ended:
+        docs.append(B.msg_doc('roDelete', 50))
+    rc, reread, lib, argv = K.cli_roundtrip(s, docs, tmpdir, 'c07-%d' % i)
+    s.evaluations += 1
+    s.note_sig(('cli-roundtrip', ended, type(reread).__name__, rc))
+    if lib is None:
+        return
+    wit = {'type': 'collection', 'docs': docs, 'strict': False}
+    if isinstance(reread, Exception) or type(reread).__name__ != 'RunningOrder':
+        s.custom_violation('running-order-written-by-cli-does-not-read-back',
+                           {'got': type(reread).__name__, 'msg': str(reread)[:150], 'completed': ended}, wit, status='cli')
+    elif bool(reread.completed) != bool(lib.completed) or str(reread) != str(lib):
+        s.custom_violation('completed-flag-or-content-lost-through-cli-file',
+                           {'file_completed': bool(reread.completed), 'library_completed': bool(lib.completed)}, wit, status='cli')
+
+
 def run(s):
     K.suite_workload(s)
+    import shutil
+    import tempfile
+    tmpdir = tempfile.mkdtemp(prefix='verif-c07-')
+    try:
+        for i in range(40 if s.tier == 'quick' else 1500):
+            if s.mine(i):
+                cli_history(s, i, tmpdir)
+    finally:
+        shutil.rmtree(tmpdir, ignore_errors=True)
     q = s.tier == 'quick'
     for h in range(200 if q else 12000):
         if s.mine(h):
